@@ -1,4 +1,4 @@
-import LZ4V.Proofs.FrameDS6
+import LZ4V.Proofs.FrameDS7
 import LZ4V.Properties.C08
 /-!
 # C08 (and the decoding halves of C03 / C19) — `LZ4F_decompress` computes the frame specification, whatever the chunking
@@ -20,8 +20,8 @@ are its consequences for a whole session, i.e. for ANY sequence of calls with AN
 
 The specification side `pDFrame` is `Spec/FrameL.lean`'s `pFrame` (header, block loop, checksums) plus skippable frames, with the declared content
 size checked when it is non-zero (all the C tracks and all the property asks).  `every_call_terminates`: the loop of one call always ends.  `staging_buffers_never_overrun`: `header[]` and `tmpIn` are never overrun, incl. a `tmpIn`
-kept from an earlier frame.  Not covered by these theorems: that a call which was offered input and room consumes or
-produces something (observed on every traced call), the physical placement of the 64 KB history (`LZ4F_updateDict`), `skipChecksums`, `LZ4F_getFrameInfo`; the block decoder and the checksum are
+kept from an earlier frame.  `every_call_makes_progress`: a call that had input and room and neither fails nor completes consumes or produces at least one byte.
+Not covered by these theorems: the physical placement of the 64 KB history (`LZ4F_updateDict`), `skipChecksums`, `LZ4F_getFrameInfo`; the block decoder and the checksum are
 parameters (any function for the checksum, any capacity-respecting function for the decoder).
 -/
 namespace LZ4V.C08
@@ -190,6 +190,19 @@ theorem session_never_stuck (E : Env) : ∀ (sched : List (Nat × Nat)) (c : Ctx
       | succ h' => exact ih _ _ _
     | error e => dsimp only; intro hc; cases hc
     | stuck => exact absurd hret ht
+
+/-- **always either makes progress or reaches a verdict**: in any context a session has reached (any schedule so far), a further call that is offered at
+    least one byte of the remaining input and at least one byte of room, and returns a non-zero hint (no error, frame not complete), has consumed at
+    least one byte or produced at least one byte -/
+theorem every_call_makes_progress (E : Env) (hE : DecBounded E) (c : Ctx) (d input : Bytes) (hr : Ready c d) (sched : List (Nat × Nat))
+    (c' : Ctx) (rest' out' : Bytes) (hp : session E c input sched [] = .pending c' rest' out')
+    (src : Bytes) (cap : Nat) (hs : src ≠ []) (hc : cap > 0) (h : Nat) (hret : (decompress E c' src cap false).ret = .hint h) (h0 : h ≠ 0) :
+    (decompress E c' src cap false).consumed > 0 ∨ (decompress E c' src cap false).out ≠ [] := by
+  have hs' := session_ok E hE (fun f => pDFrame E d f input) sched c input [] (sessInv_of_ready E c d input hr)
+  rw [hp] at hs'
+  dsimp only at hs'
+  obtain ⟨hi, ho, _⟩ := hs'
+  exact decompress_prog E hE c' src cap out' hi ho hs hc h hret h0
 
 /-- **the internal staging buffers are never overrun**: in every context a session (any schedule, any input) reaches from a context at a frame boundary
     whose buffers are in a state `dstage_init` can have left them in (`MemInv`: true of a fresh context and kept by reset), the bytes staged in
